@@ -109,6 +109,13 @@ def evaluate(case):
             fails.append("fourier_transform: an integer-typed output grid gives different (truncated) values than the same grid as floats")
     except Exception as ex:  # noqa: BLE001
         fails.append(f"fourier_transform: an integer-typed output grid raises {type(ex).__name__}")
+    # the documented positional form (xin, yin, xout, xmin, xmax, dy_in) with the full data range is the plain call
+    try:
+        _, vpos, _ = tr.fourier_transform(x, y, xo, float(x.min()), float(x.max()), dy)
+        if not np.array_equal(np.asarray(vpos), v):
+            fails.append("fourier_transform(xin, yin, xout, min(xin), max(xin), dy_in) given positionally differs from the call without a window")
+    except Exception as ex:  # noqa: BLE001
+        fails.append(f"fourier_transform with the window given positionally raises {type(ex).__name__}")
     # an explicit window [x_k, x_m] on a grid that has points a few parts in 10^6 outside either limit (merged banks): the value is the
     # trapezoid integral over the points with x_k <= x <= x_m, nothing more
     if len(x) >= 6 and x[1] > 0:
